@@ -350,6 +350,55 @@ def _split_call(n):
     return None
 
 
+STR_INDEX = "core::str::traits::<impl std::ops::Index<I> for str>::index"
+
+
+def _find_call(n):
+    """n = some/ok(find|rfind(S, c)) -> ("R"|"", c, S) else None   (c a char constant)"""
+    if n[0] in ("some", "ok") and n[1][0] == "call" and n[1][1] in (STR + "find", STR + "rfind") and len(n[1][2]) == 2:
+        c = cchar(n[1][2][1])
+        if c is not None:
+            return ("R" if n[1][1].endswith("rfind") else "", c, n[1][2][0])
+    return None
+
+
+def _plus_one(n):
+    """n = X + 1  or  X + c.len_utf8() for an ASCII char constant -> (X, c or None) else None"""
+    if n[0] == "field" and n[2] == "0" and n[1][0] == "binop" and n[1][1] in ("AddWithOverflow", "Add"):
+        n = n[1]
+    if n[0] == "binop" and n[1] in ("AddWithOverflow", "Add", "AddUnchecked"):
+        a, b = n[2], n[3]
+        if b == ("const", 1):
+            return (a, None)
+        if b[0] == "call" and b[1].endswith("<impl char>::len_utf8") and len(b[2]) == 1:
+            c = cchar(b[2][0])
+            if c is not None and ord(c) < 128:
+                return (a, c)
+    return None
+
+
+def _slice_region(n):
+    """&s[..i] / &s[i+1..] with i the position of a char found in the same s: the two halves of split_once / rsplit_once.
+    (str::find / rfind return the byte index of the first / last occurrence; an ASCII char is one byte long.)"""
+    if n[0] != "call" or n[1] != STR_INDEX or len(n[2]) != 2:
+        return None
+    s_, rg = n[2]
+    if rg[0] != "agg" or rg[1][0] != "adt":
+        return None
+    kind = rg[1][1]
+    if kind == "std::ops::RangeTo" and len(rg[2]) == 1:
+        fc = _find_call(rg[2][0])
+        if fc is not None and fc[2] == s_:
+            return (fc[0] + "SplitL", fc[1], _region(s_))
+    if kind == "std::ops::RangeFrom" and len(rg[2]) == 1:
+        po = _plus_one(rg[2][0])
+        if po is not None:
+            fc = _find_call(po[0])
+            if fc is not None and fc[2] == s_ and ord(fc[1]) < 128 and (po[1] is None or po[1] == fc[1]):
+                return (fc[0] + "SplitR", fc[1], _region(s_))
+    return None
+
+
 def _item(c, r):
     """an element of r.split(c).  Trimming c off the ends of r first only removes empty elements at the ends; the rules
     that use items require the empty element to be skipped anyway (skip-set obligations of C02/C07), so the trimmed and
@@ -371,6 +420,9 @@ def _region(n):
             return ("TrimEnd", cchar(n[2][1]), _region(n[2][0]))
         if p == STR + "trim_matches" and cchar(n[2][1]) is not None:
             return ("Trim", cchar(n[2][1]), _region(n[2][0]))
+        sl = _slice_region(n)
+        if sl is not None:
+            return sl
         return ("?", nshow(n))
     if k in ("some", "ok"):
         x = n[1]
@@ -814,6 +866,9 @@ def canon_atom(a):
         sc = _split_call(x)
         if sc is not None:
             return ("found", sc[0] + "Split", sc[1], _region(sc[2]), v == "Some")
+        fc = _find_call(("some", x))
+        if fc is not None and v in ("Some", "None"):
+            return ("found", fc[0] + "Split", fc[1], _region(fc[2]), v == "Some")
         if x[0] == "call" and x[1].endswith("::next"):
             return ("next", _region(("some", x)), v == "Some")
         if x[0] == "call":
